@@ -47,7 +47,9 @@ def check(tier):
     cfgs = [diff.Config("interp-j%d" % j, "interp", j) for j in (1, 2, 4)] + [diff.Config("compiled-j%d" % j, "compiled", j) for j in (1, 4)]
     diff.differential(rep, cases, dbs, cfgs, "subsume", batch_size=10, deadline=dl, oracle=oracle, timeout=300)
     rep.sample({"family": "subsume", "cases": [c.desc for c in cases], "databases": len(dbs)})
-    rep.set("rule", "6 subsumptive programs (min / max per key, global min, lexicographic pairs, bounded shortest distance, widest path) x 6 databases x "
+    rep.set("rule", "6 subsumptive programs (min / max per key, global min, lexicographic pairs, bounded shortest distance, widest path) and 22 structural "
+            "programs ({direct, mutual recursion with the step in the partner / in the relation itself, three-cycle, both relations subsumptive, downstream reader} x "
+            "{shortest, widest} x partner names sorting before / after the subsumptive relation) x 6 databases x "
             "interpreter -j1,2,4 and compiled -j1,4; oracle per run from the reference result U without the subsumptive clause")
     return rep.finish()
 
